@@ -32,7 +32,7 @@ type stmtObs struct {
 type txObs struct {
 	Sess, Seq int
 	Prog      *txProg
-	L         uint64 // last committed store tx id before BEGIN was called
+	L         uint64 // largest store tx id whose COMMIT had returned before BEGIN was called
 	BeginErr  string
 	Stmts     []stmtObs // one per executed statement (the failed one included)
 	EndErr    string    // class of the error returned by COMMIT / ROLLBACK / Cancel
@@ -76,9 +76,13 @@ func classify(err error) string {
 }
 
 type db struct {
-	st    *store.ImmuStore
-	eng   *sql.Engine
-	sch   map[string]*m.Schema
+	st  *store.ImmuStore
+	eng *sql.Engine
+	sch map[string]*m.Schema
+	// acked: largest store tx id whose COMMIT call has RETURNED. A commit that reached the
+	// store but has not returned yet (SQLTx.Commit still has to tell the catalog cache) is
+	// concurrent with a BEGIN issued meanwhile: that transaction may or may not see it.
+	acked atomic.Uint64
 	stuck atomic.Bool // a watchdog fired: the case is inconclusive
 	why   atomic.Value
 }
@@ -91,6 +95,15 @@ func (d *db) op(f func(ctx context.Context)) {
 	f(ctx)
 	if ctx.Err() != nil && !d.stuck.Swap(true) {
 		d.why.Store("an engine call did not return within 90 s")
+	}
+}
+
+func (d *db) ack(id uint64) {
+	for {
+		cur := d.acked.Load()
+		if id <= cur || d.acked.CompareAndSwap(cur, id) {
+			return
+		}
 	}
 }
 
@@ -154,7 +167,7 @@ func snapshotCounters(tx *sql.SQLTx, o *stmtObs) {
 // runTx executes one program and records what the engine reported.
 func (d *db) runTx(p *txProg, sess, seq int) *txObs {
 	o := &txObs{Sess: sess, Seq: seq, Prog: p}
-	o.L = d.st.LastCommittedTxID()
+	o.L = d.acked.Load()
 	if p.Script {
 		d.runScript(p, o)
 		return o
@@ -224,6 +237,7 @@ func (d *db) runTx(p *txProg, sess, seq int) *txObs {
 					err = fmt.Errorf("COMMIT acknowledged %d transactions", len(done))
 				} else if h := tx.TxHeader(); h != nil {
 					o.HeaderID = h.ID
+					d.ack(h.ID)
 				}
 				snapshotCounters(tx, &o.Final)
 			}
@@ -282,6 +296,7 @@ func (d *db) runScript(p *txProg, o *txObs) {
 	o.Committed = true
 	if h := done[0].TxHeader(); h != nil {
 		o.HeaderID = h.ID
+		d.ack(h.ID)
 	}
 	snapshotCounters(done[0], &o.Final)
 }
